@@ -110,6 +110,7 @@ theorem escClass_exc (it : Item) (raw : Cls) (hr : isException raw = true) :
         · split
           · rfl
           · rfl
+          · rfl
           · exact excCls_exc raw hr _
         · rfl
 
